@@ -57,9 +57,13 @@ func NewMemFS() FullFS {
 // getNode returns the node for the given path. If the path is not found, it
 // returns an error.
 func (m *memFS) getNode(path string) (*node, error) {
-	return m.getNodeCountLinks(path, 0)
+	links := 0
+	return m.getNodeCountLinks(path, &links)
 }
-func (m *memFS) getNodeCountLinks(path string, linkDepth int) (*node, error) {
+
+// getNodeCountLinks resolves path, counting every symlink traversal of the whole lookup
+// (including nested ones) in links, so that resolution is bounded by maxLinks traversals in total.
+func (m *memFS) getNodeCountLinks(path string, links *int) (*node, error) {
 	if path == "/" || path == "." {
 		return m.tree, nil
 	}
@@ -84,8 +88,8 @@ func (m *memFS) getNodeCountLinks(path string, linkDepth int) (*node, error) {
 		}
 		// what if it is a symlink?
 		if childNode.mode&os.ModeSymlink != 0 {
-			newDepth := linkDepth + 1
-			if newDepth > maxLinks {
+			*links++
+			if *links > maxLinks {
 				return nil, fmt.Errorf("maximum symlink depth exceeded")
 			}
 			// getNode requires working on the absolute path, so we just resolve the path to an absolute path,
@@ -100,7 +104,7 @@ func (m *memFS) getNodeCountLinks(path string, linkDepth int) (*node, error) {
 			// but that absolute path can cause us to try and hit something that is already locked
 			// and since we are recursing, it will not get freed until we return
 			// leading to a deadlock race condition
-			targetNode, err := m.getNodeCountLinks(linkTarget, newDepth)
+			targetNode, err := m.getNodeCountLinks(linkTarget, links)
 			if err != nil {
 				return nil, err
 			}
